@@ -18,6 +18,10 @@ CLAIMED = {
          'fn:substring = positions round(start) <= p < round(start)+round(length) with half-up rounding and IEEE INF/NaN rules (all strings, all rational/special arguments); substring-before/after/contains/starts-with/ends-with characterised by first occurrence and concat law; translate = first-occurrence specification; normalize-space token theorem for any whitespace class; compare is a total order; regenerated is_xml_codepoint = XML Char production. Partial: upper/lower-case, non-codepoint collations and URI escaping are not modelled; normalize-space whitespace class is a known finding.',
          'Trusted: Coq kernel; py2coq translator; Python str primitives as mirrored in C09/Model.v (modelled, validated by correspondence only); round_number modelled by C06.round_md. No axioms.',
          'DESIGN.md §6 C09'),
+ 'C11': ('Coq proof (Rata-Die refinement: cycle decomposition soundness + uniqueness of (year, day-of-year) representation; finite month tables by vm_compute) over helpers re-translated from source each run (T-fun) + correspondence with the DateTime/Duration API',
+         'todelta = proleptic Gregorian day number for every valid date (BCE, >9999 included); fromdelta o todelta = id and todelta o fromdelta = id on all of Z (instants in microseconds); d + dur - dur = d; d1 + (d2 - d1) = d2; instants injective (order = timeline order); yearMonthDuration addition moves the month count exactly in astronomical years and clamps the day; regenerated days_from_common_era / adjust_day proved against their specifications. Comparison with timezones and adjust-*-to-timezone are judged against instants by the harness (not theorems).',
+         'Trusted: Coq kernel; py2coq translator; PyCalendar.v copies of calendar.isleap/leapdays; CPython datetime ordinal arithmetic for years 1..9999 and timedelta normalisation are modelled by the same formulas and validated by correspondence only. No axioms.',
+         'DESIGN.md §6 C11'),
 }
 
 NOT_YET = {}
